@@ -479,7 +479,12 @@ def install(E):
 
     def m_pow(E, name, args, ins):
         f = E.ghost.setdefault("pow_uf", z3.Function("fppow", F64, F64, F64))
-        return f(args[0], args[1])
+        x, y = args
+        r = f(x, y)
+        zero, one = z3.FPVal(0.0, F64), z3.FPVal(1.0, F64)
+        # sound fact: 0 <= x <= 1 and y >= 0 (not NaN)  =>  0 <= pow(x, y) <= 1
+        E.assume_global(z3.Implies(z3.And(z3.fpGEQ(x, zero), z3.fpLEQ(x, one), z3.fpGEQ(y, zero)), z3.And(z3.fpGEQ(r, zero), z3.fpLEQ(r, one))), "math.Pow: base in [0,1], exponent >= 0 => result in [0,1]")
+        return r
     I["math.Pow"] = m_pow
     doc("math.Sqrt / math.Pow", "uninterpreted functions (congruence only) unless configured exact")
 
